@@ -266,6 +266,42 @@ ANewCond(cls, mode, bmode, dy, dx, R, s, m0) ==
                     [Lambda |-> MkSeq(R, LAMBDA i : ID[i].inv), dSig |-> MkSeq(R, LAMBDA i : ID[i].det)],
                     NextId, ExpectObj(c), 0, NoObj, NoObj))
 
+\* a full-class conditional from explicitly given exact records (one per component)
+ANewCondExplicit(qM, qb, qS) ==
+    LET R == Len(qM)
+        c == NewCond("Cond", "S", MkSeq(R, LAMBDA i : QM(qM[i])), MkSeq(R, LAMBDA i : QV(qb[i])),
+                     MkSeq(R, LAMBDA i : QM(qS[i])), <<>>, <<>>)
+    IN Emit(Append(heap, c),
+            Step("NewCond", [cls |-> "Cond", mode |-> "S", bmode |-> "given", M |-> qM, b |-> qb, Mat |-> qS],
+                 NoObj, NextId, ExpectObj(c), 0, NoObj, NoObj))
+
+\* a density from explicitly given exact records
+ANewPdfExplicit(qS, qm) ==
+    LET R == Len(qS)
+        o == NewPdf(MkSeq(R, LAMBDA i : QM(qS[i])), MkSeq(R, LAMBDA i : QV(qm[i])))
+    IN Emit(Append(heap, o),
+            Step("NewPdf", [cls |-> "PDF", mode |-> "S", Sigma |-> qS, mu |-> qm], NoObj, NextId, ExpectObj(o), 0, NoObj, NoObj))
+
+\* evaluate at explicitly given exact points (menu records)
+AEvaluateQ(i, qX, elementwise, via) ==
+    LET o == heap[i] R == NumR(o) X == MkSeq(Len(qX), LAMBDA k : QV(qX[k])) IN
+    /\ elementwise => Len(qX) = R
+    /\ Emit(heap,
+            Step("EvaluateQ", [i |-> i, x |-> qX, elementwise |-> elementwise, via |-> via], NoObj, 0, NoObj, 0, NoObj,
+                 [ln |-> IF elementwise THEN MkSeq(R, LAMBDA r : EvalLn(o, r, X[r]))
+                         ELSE MkSeq(R, LAMBDA r : MkSeq(Len(X), LAMBDA k : EvalLn(o, r, X[k])))]))
+
+\* condition_on_x at explicitly given exact points
+ACondOnXQ(i, qX) ==
+    LET c == heap[i] n == CondOnX(c, MkSeq(Len(qX), LAMBDA k : QV(qX[k]))) IN
+    /\ IsCond(c)
+    /\ Emit(Append(heap, n), Step("CondOnX", [i |-> i, x |-> qX, via |-> "condition_on_x"], NoObj, NextId, ExpectObj(n), 0, NoObj, NoObj))
+
+ASetYQ(i, qY) ==
+    LET c == heap[i] n == SetY(c, MkSeq(Len(qY), LAMBDA k : QV(qY[k]))) IN
+    /\ IsCond(c) /\ (CR(c) = 1 \/ CR(c) = Len(qY))
+    /\ Emit(Append(heap, n), Step("SetY", [i |-> i, y |-> qY], NoObj, NextId, ExpectObj(n), 0, NoObj, NoObj))
+
 ACondSlice(i, idx, codeIdx) ==
     LET c == heap[i] n == CondSlice(c, idx) IN
     /\ IsCond(c)
